@@ -182,7 +182,7 @@ fn message(plan: u64, k: usize, m: usize) -> Vec<u8> {
 }
 
 const META: Meta = Meta {
-    rule: "proptest histories of sign calls with the real entropy path (no scripted randomness): 1-4 Falcon-512 and 1-2 Falcon-1024 keys, 1-4 messages per key (so (key, message) pairs repeat thousands of times; message no. 1 of every key is a large message of 4100-70000 bytes whose length is shared by all keys of the history), 4-12 threads started at the beginning and 4-12 fresh threads started mid-history, and child processes (the harness re-executes itself) each signing one fixed (key, message) four times. Invariants over the whole history: all salts pairwise distinct (which includes: same (key, message) signed twice => different salts; first salts of fresh threads and fresh processes distinct), all signature byte strings distinct, every one of the 320 salt bit positions takes both values, every salt byte position passes a chi-square test against the uniform distribution on 256 values at p = 1e-12. Non-trivial = a history with a repeated (key, message) pair and more than one thread or a child process; the count adds each repeated pair, fresh thread and child process of such a history.",
+    rule: "proptest histories of sign calls with the real entropy path (no scripted randomness): 1-4 Falcon-512 and 1-2 Falcon-1024 keys, 1-4 messages per key (so (key, message) pairs repeat thousands of times; message no. 1 of every key is a large message of 4100-70000 bytes whose length is shared by all keys of the history), 6-12 threads started at the beginning and 4-12 fresh threads started mid-history, and child processes (the harness re-executes itself) each signing one fixed (key, message) four times. Invariants over the whole history: all salts pairwise distinct (which includes: same (key, message) signed twice => different salts; first salts of fresh threads and fresh processes distinct), all signature byte strings distinct, every one of the 320 salt bit positions takes both values, every salt byte position passes a chi-square test against the uniform distribution on 256 values at p = 1e-12. Non-trivial = a history with a repeated (key, message) pair and more than one thread or a child process; the count adds each repeated pair, fresh thread and child process of such a history.",
     assumptions: &[
         "'drawn from the OS-seeded generator' is observable only through these consequences: a generator with >= 2^64 states seeded badly but differently per process would pass",
         "false alarms: a collision of honest 320-bit salts has probability < 1e-80; the 40 chi-square tests together < 4e-11; a constant bit among >= 2000 honest salts < 1e-599",
@@ -202,5 +202,11 @@ pub fn run(env: &Env, replay: Option<&Path>) -> i32 {
     }
     replay_corpus(env, &subs, &mut report);
     drive(env, &SaltHistory, env.tier.pick(2, 8), &mut report);
+    if env.tier == Tier::Thorough {
+        // one long history on two threads only: 70 000 consecutive signatures per thread, past any
+        // 16-bit per-thread call counter
+        let long = HistoryCase { keys512: 1, keys1024: 0, key_base: env.seed ^ 0x10_06, signs: 140_000, threads_first: 1, threads_late: 1, messages_per_key: 2, children: 0, plan: crate::util::mix(env.seed ^ 0xC08) };
+        drive_enumerated(env, &SaltHistory, std::iter::once(long), &mut report);
+    }
     finish(env, report, &META)
 }
